@@ -66,7 +66,7 @@ def gen_op(rng: random.Random) -> list:
     if k == "cr":
         start = rng.choice([None, 0, 5])
         stop = None if start is None else start + rng.choice([1, 10])
-        length = rng.choice([None, 100]) if start is not None else rng.choice([None, 100])
+        length = rng.choice([None, 100, 15]) if start is not None else rng.choice([None, 100, 0, 0])
         return ["cr", rng.choice(["set", "set", "unset", "attr_length", "attr_units", "assign_obj", "assign_str", "assign_none"]), start, stop, length, rng.choice(["bytes", "items"])]
     if k == "mp":
         return ["mp", rng.choice(["setitem", "setitem", "delitem", "pop", "clear", "update", "setdefault"]), rng.choice(["charset", "boundary", "x"]), rng.choice(["utf-8", "a b", "x;y", "latin-1"])]
@@ -174,6 +174,8 @@ class ResponseViews(Scenario):
                     elif v and normalised[prop] and text != v.to_header():
                         vio(f"{prop}/header-text-differs-from-view/after={after}", f"header {text!r}, view serialises to {v.to_header()!r}")
                 elif prop == "www_authenticate":
+                    if text is None and normalised[prop] and (v.token is not None or v.parameters):
+                        vio(f"{prop}/header-missing-for-non-empty-view/after={after}", f"the view holds {v!r} but the response has no WWW-Authenticate header")
                     if text is not None:
                         # a challenge without token and parameters serialises to "<Scheme> ", which reads back with token ""
                         same = (fresh.type, fresh.token or None, dict(fresh.parameters)) == (v.type, v.token or None, dict(v.parameters))
@@ -337,7 +339,12 @@ class ResponseViews(Scenario):
                     elif what == "params_inner":
                         v.parameters[key] = val
                     elif what == "assign":
-                        resp.www_authenticate = ds.WWWAuthenticate(typ.lower(), {key: val})
+                        if len(val) % 2:
+                            resp.www_authenticate = ds.WWWAuthenticate(typ.lower(), {key: val})
+                        else:
+                            resp.www_authenticate = ds.WWWAuthenticate(typ.lower(), token=val.replace(" ", "").replace(",", ""))
+                            if "WWW-Authenticate" not in resp.headers:
+                                vio("www_authenticate/header-missing-for-non-empty-view/after=wa:assign", "a token-only challenge was assigned and no header was written")
                         fetch("www_authenticate")
                     elif what == "assign_list":
                         resp.www_authenticate = [ds.WWWAuthenticate("basic", {"realm": val}), ds.WWWAuthenticate("bearer", token="t")]
@@ -408,7 +415,7 @@ class ResponseViews(Scenario):
                         normalised["content_range"] = True
                         nmut += 1
                     elif what == "attr_length" and v:
-                        newlen = (v.stop or 0) + 50
+                        newlen = (v.stop + 50) if v.stop is not None else (0 if length == 0 else 77)
                         v.length = newlen
                         if v.length != newlen:
                             vio("content_range/attribute-readback-wrong", f"length = {newlen} reads back {v.length}")
